@@ -206,7 +206,7 @@ def subst(expr, b):
     e = re.sub(r'\bB\b', str(b), e)
     e = re.sub(r'\bU\b', UT[b], e)
     e = re.sub(r'\bS\b', ST[b], e)
-    e = re.sub(r'\bSQRT\b', 'sqrtf' if b == 32 else 'sqrt', e)
+    e = re.sub(r'\bSQRT\b', 'avm_sqrtf' if b == 32 else 'avm_sqrt', e)
     return e
 
 
@@ -851,7 +851,7 @@ def r_mem_misc(name):
     return None
 
 
-helper('model_mxcsr', 'unsigned int model_mxcsr = 0x1f80u;\n')
+helper('model_mxcsr', '')
 
 
 @resolver
@@ -1183,7 +1183,7 @@ helper('avm_fp', r"""/* ---- IEEE helpers for the floating-point special instruc
 static inline float __CPROVER_round_to_integralf(float x, int m) {
   int old = fegetround(); fesetround(m == 0 ? FE_TONEAREST : m == 1 ? FE_DOWNWARD : m == 2 ? FE_UPWARD : FE_TOWARDZERO);
   volatile float v = x; float r = nearbyintf(v); fesetround(old); return r; }
-static inline double __CPROVER_round_to_integral(double x, int m) {
+static inline double __CPROVER_round_to_integrald(double x, int m) {
   int old = fegetround(); fesetround(m == 0 ? FE_TONEAREST : m == 1 ? FE_DOWNWARD : m == 2 ? FE_UPWARD : FE_TOWARDZERO);
   volatile double v = x; double r = nearbyint(v); fesetround(old); return r; }
 static inline int avm_cur_rm(void) { int m = fegetround(); return m == FE_TONEAREST ? 0 : m == FE_DOWNWARD ? 1 : m == FE_UPWARD ? 2 : 3; }
@@ -1203,7 +1203,7 @@ static inline uint32_t avm_round32(uint32_t u, int imm) {
 static inline uint64_t avm_round64(uint64_t u, int imm) {
   if (avm_isnan64(u)) return avm_qnan64(u);
   int m = (imm & 4) ? avm_cur_rm() : (imm & 3);
-  return avm_d2u(__CPROVER_round_to_integral(avm_u2d(u), m));
+  return avm_d2u(__CPROVER_round_to_integrald(avm_u2d(u), m));
 }
 /* VGETEXP: floor(log2|x|) as a float; denormals are normalised first; 0 -> -inf, inf -> +inf, NaN -> QNaN */
 static inline uint32_t avm_getexp32(uint32_t u) {
@@ -1277,7 +1277,7 @@ static inline uint64_t avm_scalef64(uint64_t ua, uint64_t ub) {
   if (ub == 0x7ff0000000000000ull) return a_zero ? 0xfff8000000000000ull : (sa | 0x7ff0000000000000ull);
   if (ub == 0xfff0000000000000ull) return a_inf ? 0xfff8000000000000ull : sa;
   if (a_inf || a_zero) return ua;
-  double fb = __CPROVER_round_to_integral(avm_u2d(ub), 1);
+  double fb = __CPROVER_round_to_integrald(avm_u2d(ub), 1);
   int32_t k = fb > 2400.0 ? 2400 : (fb < -2400.0 ? -2400 : (int32_t)fb);
   /* two exact power-of-two steps followed by one rounding step would double-round in the subnormal range;
      scale in three factors whose product never leaves the double range until the last, which rounds once */
